@@ -284,6 +284,18 @@ def formula_job(interp, c, case):
             want3 = ast_value(e, env, c.assume)
             _rep(c, got == want3, "'%s' [%s]: evaluates to the formula as written at every point of its finite domain" % (text, mode),
                  "formula meaning", dict(rp, mode=mode), syms)
+        if mode == "plain":
+            # the same text parsed again for a model that numbers its species the other way round means the same thing there
+            n_ = len(SPECIES)
+            s2i_rev = {s_: n_ - 1 - i_ for s_, i_ in s2i.items()}
+            try:
+                term_r = T.ns["parse_expression"](text, s2i_rev, p2i)
+                got_r = term_r.evaluate(ptr(interp, sv[::-1].copy()), ptr(interp, pv.copy()), t)
+            except (SyntaxError, ValueError, TypeError, ZeroDivisionError):
+                got_r = None
+            if got_r is not None and not (isinstance(got_r, float) and got_r != got_r):
+                _rep(c, got_r == want2, "'%s': parsed a second time against another species numbering, it still evaluates to the value of "
+                     "the expression" % text, "a parse depends on earlier parses", dict(rp, mode="reparse"), syms)
 
 
 class _Opaque:
